@@ -4,10 +4,10 @@ from fractions import Fraction
 import lib, storelib as S
 from lib import Result, RMODES, OMODES, e_fmt, e_list, e_dy, model_call, run_sharded, Reader, outcome
 
-ROUTES = ['resize', 'resize_dtype', 'like_kw', 'like_method', 'ctor', 'set_val', 'call', 'equal', 'setitem', 'setitem_resized']
+ROUTES = ['resize', 'resize_dtype', 'like_kw', 'like_method', 'ctor', 'set_val', 'call', 'equal', 'setitem', 'setitem_resized', 'resize_nint_nfrac', 'resize_nword_nint', 'like_kw_nint']
 SRC_BUILDS = ['raw', 'float', 'int', 'indexed']
 RULE = ('source/destination format pairs of the core domain (exhaustive source codes for n_word<=3 quick / <=6 thorough, random and boundary codes up to 52 bits, and codes whose rescaled value sits at the 2^62..2^65 machine boundary), all 10 destination mode pairs, '
-        '9 conversion routes (resize by sizes, resize by dtype string, like=, like(), constructor, set_val, call, equal, indexed assignment of Fxp elements), scalar / 1-D / 2-D sources built from raw codes, '
+        '12 conversion routes (resize by sizes, resize by dtype string, resize / like= with the destination given through n_int and one other size together with its signedness, like=, like(), constructor, set_val, call, equal, indexed assignment of Fxp elements), scalar / 1-D / 2-D sources built from raw codes, '
         'floats, Python ints and indexed elements (hidden vdtype / storage dtype vary), chains of up to 6 conversions; complex sources (values and complex results) through seven routes, each component on its own, read back complex. Compared: destination codes with Spec.quantize of the exact source value, shape, dtype string, '
         'overflow/underflow flags, source unchanged; and with the conversion model. Non-trivial = the conversion changes the value (rounding or overflow); distinct by full input.')
 ASSUMPTIONS = []
@@ -46,6 +46,16 @@ def build_source(fx, np, s, nw, nf, codes, shape, how):
 def convert(fx, np, src, route, ds, dnw, dnf, r, o):
     """returns the destination object"""
     kw = dict(rounding=r, overflow=o)
+    if route in ('resize_nint_nfrac', 'resize_nword_nint', 'like_kw_nint'):
+        # the destination given through the integer length (n_int = n_word - n_frac - sign) and one other size, together with its signedness
+        ni = dnw - dnf - (1 if ds else 0)
+        if route == 'like_kw_nint':
+            tmpl = fx.Fxp(None, like=src); tmpl.config.rounding = r; tmpl.config.overflow = o
+            return fx.Fxp(src, like=tmpl, signed=ds, n_int=ni, n_frac=dnf)
+        d = fx.Fxp(src, like=src); d.config.rounding = r; d.config.overflow = o
+        if route == 'resize_nint_nfrac': d.resize(signed=ds, n_int=ni, n_frac=dnf)
+        else: d.resize(signed=ds, n_word=dnw, n_int=ni)
+        return d
     if route == 'resize':
         d = fx.Fxp(src, like=src); d.config.rounding = r; d.config.overflow = o   # same format copy, then resize in place
         d.resize(ds, dnw, dnf); return d
